@@ -16,7 +16,8 @@ from vlib import drive, oracles
 
 PROPERTY = "C02"
 RULE = ("combi: (d in 1..3 (4 thorough), 1<=lmin<=5, lmax=lmin+0..5 (mostly <=3), box [a,b] per dimension from integers / dyadics / non-dyadic "
-        "floats / narrow boxes far from the origin, TrapezoidalGrid boundary on|off, operation Integration|Interpolation, "
+        "floats / independently drawn decimal bounds such as [-1,1.3], [-2,2.1] (3 of 8 boxes; half of them with fl(a+fl(b-a)) != b) "
+        "/ narrow boxes far from the origin, TrapezoidalGrid boundary on|off, operation Integration|Interpolation, "
         "integrator default|'old', a permutation of the observation blocks integrate / points / call / interpolate_grid / "
         "points-and-weights, optionally after the same objects have been used for another (lmin,lmax); 3 of 8 boxes are scaled as a "
         "whole or per dimension by s in {2^-30,1e-9,1e-6,1e-3,1e3,2^20} (unusual units); with boundary=False 4 of 7 cases add "
@@ -55,6 +56,10 @@ ASSUMPTIONS = [
     "for any other function; a nan/inf result where the oracle determines a finite value is a deviation",
     "a user Function may override eval_vectorized next to eval; the layout the base class itself produces and reshapes to is "
     "(n_points, output_length) (for stacked input (..., n_points, output_length)), and that is what the check's subclass returns",
+    "with boundary=True the box ends a_d and b_d themselves (bit-exact) must be coordinates of every component grid in every "
+    "dimension and no returned point may lie outside the closed box: points on the faces of the box are points of the sparse "
+    "grid, and interpolation is requested on the closed box including its faces and corners (all other point comparisons "
+    "identify points by relative position rounded to 2^-32 and would not see a last-bit shift of the outermost nodes)",
     "interpolation points are generated inside the closed box [a,b] (the interpolant is only defined there; scipy's interpn, "
     "which the library delegates to, raises for points outside)",
     "the sparse-grid-interpolant oracle for arbitrary functions is skipped (counted as class sgi-oracle-skipped(size)) when the "
@@ -132,8 +137,10 @@ def frac_key(fr):
 
 
 def to_coord(t, a, b):
-    """relative position -> coordinate inside the closed box"""
-    return tuple(min(max(a[d] + (b[d] - a[d]) * float(t[d]), a[d]), b[d]) for d in range(len(a)))
+    """relative position -> coordinate inside the closed box; t_d = 0 and t_d = 1 give a_d and b_d themselves (bit-exact:
+    fl(a + fl(b - a)) differs from b for about a quarter of all boxes with decimal bounds)"""
+    return tuple(a[d] if t[d] <= 0.0 else (b[d] if t[d] >= 1.0 else min(max(a[d] + (b[d] - a[d]) * float(t[d]), a[d]), b[d]))
+                 for d in range(len(a)))
 
 
 def table_value(key, seed):
@@ -359,6 +366,20 @@ def check_structure(out, sub, sc, model, info):
             rawpoints.add(tuple(float(x) for x in p))
         if len(keys) != len(pts):
             out.bad(sub + "/points/duplicate-point-in-component-grid", "grid %s: %d points, %d distinct" % (lv, len(pts), len(keys)))
+        # every point lies in the closed box; with boundary points the box ends a_d, b_d themselves (bit-exact) are coordinates
+        # of the grid in every dimension (the interpolation mesh must reach the faces, nodal values belong to the faces)
+        for d in range(dim):
+            cs = [float(p[d]) for p in pts]
+            if not cs:
+                continue
+            lo, hi = min(cs), max(cs)
+            if lo < a[d] or hi > b[d]:
+                out.bad(sub + "/points/point-outside-closed-box", "grid %s dimension %d: coordinates range over [%r, %r], box [%r, %r]" % (
+                    lv, d, lo, hi, a[d], b[d]))
+            elif model.boundary and (lo != a[d] or hi != b[d]):
+                which = "/".join(w for w, bad in (("lower", lo != a[d]), ("upper", hi != b[d])) if bad)
+                out.bad(sub + "/points/domain-end-point-is-not-a-grid-coordinate/" + which,
+                        "grid %s dimension %d boundary=True: outermost coordinates %r and %r, box ends %r and %r" % (lv, d, lo, hi, a[d], b[d]))
         for k in keys:
             sums[k] = sums.get(k, 0) + cg.coefficient
     # clause 5 (second loop on purpose: the grid object is now positioned on the last level vector)
@@ -443,6 +464,14 @@ def run_combi(case, corrupt=None):
     dy = rng.integers(0, 2 ** (lmax + 1) + 1, size=(nrand, dim)) / float(2 ** (lmax + 1))
     T = np.where(kinds == 1, dy, T)                                       # on a grid line of level lmax+1
     T = np.where(kinds == 2, rng.integers(0, 2, size=(nrand, dim)), T)    # on the boundary
+    # ... the two corners a and b, and for two dimensions a point exactly on the lower / upper face
+    extra = [np.zeros(dim), np.ones(dim)]
+    for j in range(2):
+        for face in (0.0, 1.0):
+            t = rng.random(dim)
+            t[int(rng.integers(0, dim))] = face
+            extra.append(t)
+    T = np.vstack([T] + extra)
     R = [to_coord(t, a, b) for t in T]
     P = list(model.sparse_coords) + R
     nS = len(model.sparse_coords)
@@ -451,6 +480,11 @@ def run_combi(case, corrupt=None):
     for d in range(dim):
         n = int(rng.integers(1, 4))
         t = np.sort(np.where(rng.integers(0, 3, size=n) == 0, rng.integers(0, 2 ** lmax + 1, size=n) / float(2 ** lmax), rng.random(n)))
+        t = [tt for tt in t if 0.0 < tt < 1.0]
+        faces = int(rng.integers(0, 4))                    # 0: interior only, 1: + lower face, 2: + upper face, 3: both
+        t = ([0.0] if faces in (1, 3) else []) + t + ([1.0] if faces in (2, 3) else [])
+        if not t:
+            t = [1.0]
         gc.append([to_coord([tt] * dim, a, b)[d] for tt in t])
     cross = list(itertools.product(*gc))
 
@@ -645,6 +679,17 @@ def run_combi(case, corrupt=None):
         out.cls("objects-reused-after-another-scheme")
     if model.singular:
         out.cls("singular-on-boundary", "singular-on-boundary=%s" % model.singular)
+    _box_classes(out, a, b)
+    if any(p[d] == b[d] for p in R for d in range(dim)):
+        out.cls("evaluation-point-on-upper-face")
+    if any(p[d] == a[d] for p in R for d in range(dim)):
+        out.cls("evaluation-point-on-lower-face")
+    if tuple(a) in R and tuple(b) in R:
+        out.cls("evaluation-points-corner-a-and-corner-b")
+    if any(g[-1] == b[d] for d, g in enumerate(gc)):
+        out.cls("tensor-grid-includes-upper-face")
+    if any(g[0] == a[d] for d, g in enumerate(gc)):
+        out.cls("tensor-grid-includes-lower-face")
     _scale_classes(out, case)
     if case.get("fclass") == "own_vectorized":
         out.cls("own-eval_vectorized")
@@ -659,6 +704,15 @@ def run_combi(case, corrupt=None):
     info["max_lmax"] = lmax
     out.info = info
     return out
+
+
+def _box_classes(out, a, b):
+    if any(a[d] + (b[d] - a[d]) != b[d] for d in range(len(a))):
+        out.cls("box-with-fl(a+(b-a))!=b")
+        if any(a[d] + (b[d] - a[d]) < b[d] for d in range(len(a))):
+            out.cls("box-with-fl(a+(b-a))<b")
+    if any(b[d] - (b[d] - a[d]) != a[d] for d in range(len(a))):
+        out.cls("box-with-fl(b-(b-a))!=a")
 
 
 def _scale_classes(out, case):
@@ -706,6 +760,7 @@ def run_scheme(case):
     out.nontrivial = bool(dim >= 2 and lmax > lmin)
     out.cls("d=%d" % dim, "lmin=%d" % lmin, "boundary=%s" % boundary)
     _scale_classes(out, case)
+    _box_classes(out, model.a, model.b)
     info["max_dim"] = dim
     info["max_lmax"] = lmax
     out.info = info
@@ -737,10 +792,26 @@ def _draw_scale(draw, dim, a, b):
     return [a[d] * bs[d] for d in range(dim)], [b[d] * bs[d] for d in range(dim)], bs
 
 
+# decimal bounds drawn independently: fl(a + fl(b - a)) != b for about a quarter of the pairs ([-1,1.3], [-2,2.1], ...)
+DEC_A = [-1.0, -2.0, 0.1, 0.3, -0.7, -3.0, 0.2, 1.1, -0.1, 0.6]
+DEC_B = [1.3, 2.1, 0.7, 7.3, 1.7, 2.9, 3.3, 5.1, 1.9, 4.3, 2.3]
+DEC_BAD = [(x, y) for x in DEC_A for y in DEC_B if x < y and x + (y - x) != y]     # the pairs with fl(a+(b-a)) != b
+DEC_LOW = [(x, y) for (x, y) in DEC_BAD if x + (y - x) < y]                        # ... that end below b
+
+
 def _draw_box(draw, dim):
     a, b = [], []
-    cls = draw(st.sampled_from(["generic"] * 5 + ["unit", "offset"]))
+    cls = draw(st.sampled_from(["generic"] * 3 + ["decimal"] * 3 + ["unit", "offset"]))
     for d in range(dim):
+        if cls == "decimal":
+            if draw(st.booleans()):
+                lo, hi = draw(st.sampled_from(DEC_LOW + DEC_LOW + DEC_BAD))
+            else:
+                lo = draw(st.sampled_from(DEC_A))
+                hi = draw(st.sampled_from([y for y in DEC_B if y > lo]))
+            a.append(lo)
+            b.append(hi)
+            continue
         if cls == "unit":
             lo, w = 0.0, 1.0
         elif cls == "offset" and (d == 0 or draw(st.booleans())):
@@ -825,6 +896,12 @@ def combi_fixed():
             res.append(dict(dim=dim, lmin=lmin, lmax=lmax, boundary=False, a=[v * s for v in [-1.0, 0.3, 2.0][:dim]],
                             b=[v * s for v in [2.0, 1.0, 2.5][:dim]], boxclass="generic", boxscale=None if s == 1.0 else [s] * dim, singular=mode,
                             op="Integration", integrator="default", order=[[0, 1, 2, 3, 4], [2, 3, 0, 1, 4]][i % 2], nbasis=8, rng=31 + i))
+    # boxes with decimal bounds for which a + (b - a) is not b
+    for i, (dim, lmin, lmax) in enumerate([(2, 1, 3), (1, 2, 3), (3, 1, 2), (2, 2, 3)]):
+        for boundary in (True, False):
+            res.append(dict(dim=dim, lmin=lmin, lmax=lmax, boundary=boundary, a=[-1.0, -2.0, 0.3][:dim], b=[1.3, 2.1, 7.3][:dim], boxclass="decimal",
+                            op=["Integration", "Interpolation"][i % 2], integrator="default", order=[[0, 1, 2, 3, 4], [3, 2, 1, 4, 0]][i % 2],
+                            nbasis=8, rng=83 + i))
     # user functions with their own eval_vectorized whose output length equals the number of points of a component grid
     for i, (dim, lmin, lmax, boundary, k) in enumerate([(2, 1, 3, False, 3), (1, 2, 2, True, 5), (1, 3, 3, False, 7), (2, 1, 2, True, 9),
                                                          (2, 2, 3, False, 9), (3, 1, 2, False, 3), (2, 1, 3, True, 15), (2, 1, 3, False, 4),
@@ -888,6 +965,34 @@ def selftest():
     o = run_combi(base, corrupt=shift)
     sigs = " ".join(s for s, m in o.violations)
     assert "pointset/extra" in sigs and "count/differs-from-level-convention" not in sigs, sigs
+    # the end-point clause rejects a grid that ends one ulp below b, and a point outside the box
+    class _CG:
+        levelvector, coefficient = [1], 1.0
+
+    class _Stub:
+        def __init__(self, pts):
+            self.scheme, self.pts = [_CG()], pts
+            self.grid = self
+
+        def get_points_component_grid(self, lv):
+            return self.pts
+
+        def get_num_points_component_grid(self, lv, flag):
+            return len(self.pts)
+
+        def levelToNumPoints(self, lv):
+            return [len(self.pts)]
+
+    class _M:
+        dim, lmin, lmax, boundary, a, b = 1, 1, 1, True, [-1.0], [1.3]
+        sparse_keys = [frac_key(fr) for fr in oracles.sparse_grid_points(1, 1, 1, [-1.0], [1.3], True)]
+    for pts, want in [([(-1.0,), (0.15,), (1.3,)], ""), ([(-1.0,), (0.15,), (np.nextafter(1.3, 0),)], "domain-end-point-is-not-a-grid-coordinate/upper"),
+                      ([(np.nextafter(-1.0, 0),), (0.15,), (1.3,)], "domain-end-point-is-not-a-grid-coordinate/lower"),
+                      ([(-1.0,), (0.15,), (np.nextafter(1.3, 2),)], "point-outside-closed-box")]:
+        o = Outcome()
+        check_structure(o, "t", _Stub(pts), _M, {})
+        sigs = " ".join(s for s, m in o.violations)
+        assert (want in sigs) if want else not o.violations, (pts, sigs)
     # table function is deterministic and spread out
     vals = [table_value((i, 7), 1) for i in range(200)]
     assert table_value((3, 7), 1) == vals[3] and -1 <= min(vals) < -0.8 and 0.8 < max(vals) < 1
